@@ -120,9 +120,10 @@ def _atom(e, free):
     raise u
 
 
-def eval_all(e, env, calls=None):
-    """Set of possible truth values of e under env, over all valuations of uninterpreted atoms."""
-    free = {}
+def eval_all(e, env, calls=None, preset=None):
+    """Set of possible truth values of e under env, over all valuations of uninterpreted atoms
+    (atoms whose astx.dump is a key of `preset` are fixed to that value)."""
+    free = dict(preset or {})
     res = set()
 
     def go(depth=0):
@@ -673,7 +674,7 @@ def filter_rule(repo, out):
            'restricted to those it can give in each activation state); keyed by system.pathname')
 
 
-def _returns_when(fn, g, env):
+def _returns_when(fn, g, env, preset=None):
     """Return nodes (and implicit fall-through) reachable from entry under env."""
     outs = []
     seen = set()
@@ -692,7 +693,7 @@ def _returns_when(fn, g, env):
             outs.append(n)
             continue
         if n.kind == 'test':
-            vals = eval_all(n.ast.test, env)
+            vals = eval_all(n.ast.test, env, preset=preset)
             for m, lab in g.succ[n]:
                 if (lab == 'true' and True in vals) or (lab == 'false' and False in vals):
                     stack.append(m)
@@ -1299,6 +1300,492 @@ def once(repo, out):
         return
     out.ok(fn, targets[0].ast, f'{len(targets)} write(s), none reachable once the sets are not None; '
            'reachable after the reset')
+
+
+# =========================================================================== consumers of relevance
+IMPL = 'openmdao/core/implicitcomponent.py'
+EXPL = 'openmdao/core/explicitcomponent.py'
+SYSTEM = 'openmdao/core/system.py'
+APPROX = 'openmdao/approximation_schemes/approximation_scheme.py'
+DRIVER = 'openmdao/core/driver.py'
+JAC_OWNERS = ((EXPL, 'ExplicitComponent._get_jacobian'), (IMPL, 'ImplicitComponent._get_jacobian'),
+              (GROUP, 'Group._get_jacobian'))
+
+
+APPROX_REBUILDERS = ('_add_approximations', '_setup_approx_derivs', '_setup_approx_coloring')
+
+
+def _is_call_on_self(e, name):
+    return isinstance(e, ast.Call) and astx.call_name(e) == f'self.{name}' and not e.args and not e.keywords
+
+
+@rule('C24.jacreset', floor=4)
+def jacreset(repo, out):
+    """A relevance-pruned jacobian is dropped whenever the relevance object or its activation changed: all three _get_jacobian siblings reset, unconditionally (but for the coloring jacobian), the very attribute whose None-ness triggers the rebuild; _relevance_changed answers True when identity or activation differ."""
+    for rel, qn in JAC_OWNERS:
+        fn = repo.func(rel, qn)
+        g = cfgm.build(fn)
+        tests = [n for n in g.nodes if n.kind == 'test' and not n.tag and isinstance(n.ast, ast.If) and
+                 any(_is_call_on_self(c, '_relevance_changed') for c in astx.calls(n.ast.test))]
+        if len(tests) != 1:
+            out.unsure(fn, fn.node, f'expected one `if self._relevance_changed() ...` test, found {len(tests)}')
+            continue
+        t = tests[0].ast
+        chg = [c for c in astx.calls(t.test) if _is_call_on_self(c, '_relevance_changed')][0]
+        resets = [st for st in t.body if isinstance(st, ast.Assign) and isinstance(st.value, ast.Constant)
+                  and st.value.value is None]
+        attrs = {astx.path(x) for st in resets for x in st.targets}
+        if not resets or t.orelse:
+            out.unsure(fn, t, 'the relevance-change branch does not reset a cached attribute to None')
+            continue
+        # (1) the reset happens whenever relevance changed and the jacobian is not the coloring jacobian
+        sparsity = [c for c in astx.calls(t.test) if astx.call_name(c) == 'isinstance' and len(c.args) == 2
+                    and astx.mentions(c.args[1], '_ColSparsityJac')]
+        preset = {astx.dump(chg): True}
+        for c in sparsity:
+            preset[astx.dump(c)] = False
+        vals = eval_all(t.test, {}, preset=preset)
+        if vals != {True}:
+            out.bad(fn, t, 'the cached jacobian is kept although the relevance object/activation changed '
+                    '(the reset also depends on something else): sub-jacobians pruned for the previous '
+                    'of/wrt stay missing and the next total derivative silently gets 0 for them',
+                    key='jac-reset-conditional')
+            continue
+        # _relevance_changed() consumes the change: it must be evaluated first
+        first = t.test
+        while isinstance(first, ast.BoolOp):
+            first = first.values[0]
+        if first is not chg:
+            out.bad(fn, t, '`self._relevance_changed()` is not the first operand: when the earlier operand '
+                    'short-circuits the change is never consumed nor acted on', key='jac-reset-conditional')
+            continue
+        # (2) the rebuild is triggered by the attribute that was reset
+        caches = ('self._jacobian', 'self._jac_wrapper')
+        makers = [n for n in g.nodes if n.kind == 'stmt' and not n.tag and isinstance(n.ast, ast.Assign)
+                  and any(astx.path(x) == 'self._jacobian' for x in n.ast.targets)
+                  and isinstance(n.ast.value, ast.Call)]
+        rebuilt = set()
+        for a in attrs:
+            env = {c: _Computed(True) for c in caches}
+            env[a] = None
+            env['self.matrix_free'] = False
+            seen_n = set()
+            stack = [g.entry]
+            while stack:
+                n = stack.pop()
+                if n in seen_n:
+                    continue
+                seen_n.add(n)
+                if n in makers:
+                    rebuilt.add(a)
+                    break
+                if n.kind == 'test' and n.ast is not t:
+                    vals = eval_all(n.ast.test, env)
+                    stack.extend(m for m, lab in g.succ[n]
+                                 if (lab == 'true' and True in vals) or (lab == 'false' and False in vals))
+                else:
+                    stack.extend(m for m, lab in g.succ[n] if lab != 'exc')
+        if not rebuilt:
+            out.bad(fn, resets[0], f'relevance change resets {sorted(attrs)} but the jacobian is only rebuilt '
+                    'when a different attribute is None: the pruned jacobian survives', key='jac-reset-wrong-cache')
+            continue
+        # (3) approximations pruned for the old relevance are re-established together with the jacobian
+        if astx.mentions(fn.node, '_has_approx', '_owns_approx_jac'):
+            env = {c: _Computed(True) for c in caches}
+            for a in attrs:
+                env[a] = None
+            env['self.matrix_free'] = False
+            seen_n = set()
+            stack = [g.entry]
+            redo = None
+            while stack:
+                n = stack.pop()
+                if n in seen_n:
+                    continue
+                seen_n.add(n)
+                if n.kind in ('stmt', 'test', 'with', 'iter') and any(
+                        astx.callee_attr(c) in APPROX_REBUILDERS and astx.path(astx.receiver(c)) == 'self'
+                        for c in n.calls()):
+                    redo = n
+                    break
+                if n.kind == 'test':
+                    vals = {True} if n.ast is t else eval_all(n.ast.test, env)
+                    stack.extend(m for m, lab in g.succ[n]
+                                 if (lab == 'true' and True in vals) or (lab == 'false' and False in vals))
+                else:
+                    stack.extend(m for m, lab in g.succ[n] if lab != 'exc')
+            if redo is None:
+                out.bad(fn, t, 'after a relevance change a fresh jacobian is built but the approximations of this '
+                        'system (approx keys / wrt set / approximation scheme, pruned by is_relevant for the '
+                        'PREVIOUS of/wrt) are not set up again, unlike in the component siblings '
+                        '(_add_approximations): columns that were irrelevant before are never perturbed and '
+                        'come out as 0', key='approx-not-rebuilt')
+                continue
+        out.ok(fn, t, f'relevance change => {sorted(rebuilt)} = None => jacobian (and approximations) rebuilt')
+
+    fn = repo.func(SYSTEM, 'System._relevance_changed')
+    g = cfgm.build(fn)
+    rd = cfgm.ReachingDefs(g)
+    ident = act = None
+    for w in astx.walk(fn.node):
+        if isinstance(w, ast.Compare) and len(w.ops) == 1:
+            sides = [astx.path(w.left), astx.path(w.comparators[0])]
+            if 'self._relevance' in sides and isinstance(w.ops[0], (ast.Is, ast.IsNot)):
+                ident = w
+            if 'self._relevance._active' in sides and isinstance(w.ops[0], (ast.Eq, ast.NotEq, ast.Is, ast.IsNot)):
+                act = w
+    if ident is None and act is None:
+        out.unsure(fn, fn.node, 'identity / activation comparisons not found')
+        return
+    if ident is None or act is None:
+        out.bad(fn, fn.node, 'only the ' + ('activation flag' if ident is None else 'identity of the relevance '
+                'object') + ' is compared with the remembered state: a change of the '
+                + ('relevance object (new of/wrt)' if ident is None else 'activation (pruned -> unpruned)')
+                + ' goes unnoticed and the pruned jacobian is kept', key='relevance-changed-misses')
+        return
+    neg = lambda c: isinstance(c.ops[0], (ast.Is, ast.Eq))
+    problems = 0
+    for D, E in ((True, False), (False, True), (True, True)):
+        preset = {astx.dump(ident): (not D) if neg(ident) else D, astx.dump(act): (not E) if neg(act) else E}
+        for r in _returns_when(fn, g, {}, preset=preset):
+            v = None if r is None else r.ast.value
+            if isinstance(v, ast.Name):
+                v = rd.value(r, v.id) or v
+            try:
+                val = None if v is None else ev(v, {}, dict(preset))
+            except Unknown:
+                out.unsure(fn, r.ast, 'return value not recognised')
+                problems += 1
+                break
+            if not val:
+                out.bad(fn, r.ast if r is not None else fn.node,
+                        f'answers {val!r} although the relevance object {"changed" if D else "is the same"} and '
+                        f'its activation {"changed" if E else "is the same"}: jacobians pruned for the old '
+                        'relevance are kept', key='relevance-changed-misses')
+                problems += 1
+                break
+        if problems:
+            break
+    if not problems:
+        out.ok(fn, fn.node, 'True whenever the relevance object or its _active flag differs from the remembered one')
+
+
+def _bound_only_inside(fn, loop):
+    """Names all of whose bindings in fn are inside `loop` (its targets or assignments in its body)."""
+    inside, outside = set(), set()
+    for a in fn.node.args.args:
+        outside.add(a.arg)
+    for st in astx.walk_stmts(fn.node.body):
+        tg = [t.id for t in astx.assigned_targets(st) if isinstance(t, ast.Name)] \
+            if isinstance(st, (ast.Assign, ast.AugAssign, ast.AnnAssign, ast.For, ast.With)) else []
+        if not tg:
+            continue
+        if st is loop or astx.in_body(st, loop, 'body'):
+            inside.update(tg)
+        else:
+            outside.update(tg)
+    return inside - outside
+
+
+@rule('C24.seedcover', floor=3)
+def seedcover(repo, out):
+    """The seeds an approximation group activates cover every variable the group perturbs: per-wrt groups carry that wrt, the combined (reverse-directional) group carries the accumulated wrts, and the consumer activates exactly that slot."""
+    fn = repo.func(APPROX, 'ApproximationScheme._init_approximations')
+    loops = [st for st in astx.walk_stmts(fn.node.body) if isinstance(st, ast.For) and
+             isinstance(st.iter, ast.Call) and astx.callee_attr(st.iter) == '_get_jac_wrts']
+    if len(loops) != 1:
+        raise AnalysisError(f'{fn.ident}: loop over _get_jac_wrts not found')
+    loop = loops[0]
+    tg = [t for t in astx.assigned_targets(loop) if isinstance(t, ast.Name)]
+    if not tg:
+        raise AnalysisError(f'{fn.ident}: loop targets not recognised')
+    wrt = tg[0].id
+    local_only = _bound_only_inside(fn, loop)
+    groups = []
+    for st in astx.walk_stmts(fn.node.body):
+        if isinstance(st, ast.Expr) and isinstance(st.value, ast.Call) and \
+                astx.call_name(st.value) == 'self._approx_groups.append' and len(st.value.args) == 1 and \
+                isinstance(st.value.args[0], ast.Tuple):
+            groups.append((st, st.value.args[0]))
+        if isinstance(st, ast.Assign) and any(astx.path(t) == 'self._approx_groups' for t in st.targets) and \
+                isinstance(st.value, ast.List):
+            for e in st.value.elts:
+                if isinstance(e, ast.Tuple):
+                    groups.append((st, e))
+                else:
+                    out.unsure(fn, st, 'approx group is not a tuple literal')
+    nslots = None
+    for st, tup in groups:
+        if len(tup.elts) < 4:
+            out.unsure(fn, st, 'approx group tuple has an unexpected layout')
+            continue
+        nslots = len(tup.elts)
+        seeds, cols, vecs = tup.elts[0], tup.elts[2], tup.elts[3]
+        inloop = astx.in_body(st, loop, 'body')
+        if inloop:
+            if wrt in astx.names(seeds):
+                out.ok(fn, st, f'per-variable group seeded with its own `{wrt}`')
+            else:
+                out.unsure(fn, st, 'seed slot of a per-variable group does not mention the loop variable')
+            continue
+        stale = sorted(astx.names(seeds) & local_only)
+        if stale:
+            out.bad(fn, st, f'the combined group built after the loop is seeded with `{astx.src(seeds)}`: '
+                    f'{stale} only hold the LAST loop iteration while slots 2/3 perturb the accumulated '
+                    'indices of every wrt: systems relevant only to the other variables are not re-run',
+                    key='seeds-last-iteration-only')
+            continue
+        # the seed slot must be an accumulator fed with the loop variable next to the index accumulators
+        def feeders(expr):
+            res = []
+            for nm in astx.names(expr):
+                for c in astx.calls(loop):
+                    if astx.callee_attr(c) in ('append', 'extend', 'add', 'update'):
+                        r = astx.receiver(c)
+                        base = r
+                        while isinstance(base, ast.Subscript):
+                            base = base.value
+                        if isinstance(base, ast.Name) and base.id == nm:
+                            res.append(c)
+            return res
+        fs, fc, fv = feeders(seeds), feeders(cols), feeders(vecs)
+        if not fs or not fc or not fv:
+            out.unsure(fn, st, 'seed / index slots of the combined group are not accumulators filled in the loop')
+            continue
+        if not any(wrt in astx.names(c) for c in fs):
+            out.bad(fn, st, f'the seed accumulator is never fed with the loop variable `{wrt}`', key='seeds-not-accumulated')
+            continue
+        homes = {id(astx.stmt_of(c)._parent) for c in fs + fc + fv}
+        same = all(astx.stmt_of(c) in getattr(astx.stmt_of(fs[0])._parent, f, [])
+                   for c in fs + fc + fv for f in ('body', 'orelse') if
+                   astx.stmt_of(fs[0]) in getattr(astx.stmt_of(fs[0])._parent, f, []))
+        if len(homes) != 1 or not same:
+            out.unsure(fn, st, 'seed and index accumulators are filled under different guards')
+            continue
+        out.ok(fn, st, 'combined group seeded with the accumulated wrts, filled next to the perturbed indices')
+
+    # consumer: the slot activated as seeds is slot 0 of the unpacked group
+    cf = repo.func(APPROX, 'ApproximationScheme._uncolored_column_iter')
+    cg = cfgm.build(cf)
+    crd = cfgm.ReachingDefs(cg)
+    unpack = [st for st in astx.walk_stmts(cf.node.body) if isinstance(st, (ast.Assign, ast.For)) and
+              any(isinstance(t, ast.Tuple) and nslots and len(t.elts) == nslots
+                  for t in (st.targets if isinstance(st, ast.Assign) else [st.target]))]
+    if len(unpack) != 1:
+        out.unsure(cf, cf.node, 'unpacking of the approx group tuple not found')
+        return
+    tt = [t for t in (unpack[0].targets if isinstance(unpack[0], ast.Assign) else [unpack[0].target])
+          if isinstance(t, ast.Tuple)][0]
+    slot_names = [astx.path(e) for e in tt.elts]
+    acts = [(n, c) for n in cg.nodes if n.kind == 'with' and not n.tag for c in n.calls()
+            if astx.callee_attr(c) == 'seeds_active']
+    if not acts:
+        out.bad(cf, cf.node, 'approximated total columns are no longer run under relevance.seeds_active',
+                key='approx-no-seeds')
+        return
+    for n, c in acts:
+        e = astx.arg(c, 0, 'fwd_seeds')
+
+        def leaves(x, at, depth=0):
+            if isinstance(x, ast.IfExp):
+                return leaves(x.body, at, depth) + leaves(x.orelse, at, depth)
+            if isinstance(x, ast.Name) and x.id not in slot_names and depth < 3:
+                ds = crd.defs(at, x.id)
+                if ds and all(d.kind == 'stmt' and isinstance(d.ast, ast.Assign) and len(d.ast.targets) == 1
+                              and astx.path(d.ast.targets[0]) == x.id for d in ds):
+                    res = []
+                    for d in ds:
+                        res += leaves(d.ast.value, d, depth + 1)
+                    return res
+            return [x]
+        ls = leaves(e, n) if e is not None else []
+        used = set()
+        for x in ls:
+            used |= astx.names(x) & set(slot_names)
+        if used == {slot_names[0]}:
+            out.ok(cf, c, f'seeds_active receives slot 0 (`{slot_names[0]}`) of the group')
+        elif used:
+            out.bad(cf, c, f'seeds_active receives {sorted(used)}, not the seed slot `{slot_names[0]}` of the '
+                    'approx group', key='approx-seeds-wrong-slot')
+        else:
+            out.unsure(cf, c, 'fwd_seeds argument does not come from the approx group')
+
+
+PHASE_SET = {'pre': '_pre_components', 'post': '_post_components'}
+
+
+@rule('C24.phase', floor=7)
+def phase(repo, out):
+    """The pre/post phases of a driver run are guarded by their own component set, run before/after the iterated phase, and Relevance maps each phase name to the array built from the same set."""
+    for qn in ('Driver._run', 'Driver._find_feasible'):
+        fn = repo.func(DRIVER, qn)
+        g = cfgm.build(fn)
+        rd = cfgm.ReachingDefs(g)
+        withs = {}
+        for n in g.nodes:
+            if n.kind != 'with' or n.tag:
+                continue
+            for c in n.calls():
+                if astx.callee_attr(c) == 'nonlinear_active' and _is_relevance(astx.receiver(c), rd, n):
+                    k = astx.const_str(astx.arg(c, 0, 'name'))
+                    if k is None:
+                        out.unsure(fn, c, 'phase name is not a literal')
+                    else:
+                        withs.setdefault(k, []).append(n)
+        for k in ('pre', 'post'):
+            for n in withs.get(k, []):
+                own, other = PHASE_SET[k], PHASE_SET['post' if k == 'pre' else 'pre']
+                verdict = 'ok'
+                child = n.ast
+                for a in astx.ancestors(n.ast):
+                    if a is fn.node:
+                        break
+                    if isinstance(a, ast.If) and astx.mentions(a.test, own, other):
+                        env = {}
+                        for w in astx.walk(a.test):
+                            if isinstance(w, ast.Attribute) and w.attr in (own, other):
+                                env[astx.path(w)] = _Computed(w.attr == own)
+                        vals = eval_all(a.test, env)
+                        inbody = astx.in_body(child, a, 'body')
+                        runs = (True in vals) if inbody else (False in vals)
+                        if not runs:
+                            verdict = 'bad'
+                    child = a
+                if verdict == 'bad':
+                    out.bad(fn, n.ast, f"the '{k}' phase does not run when {own} is non-empty and {other} is "
+                            f"empty (it is guarded by the other set): the {k} components are never executed "
+                            "while the iterated phase filters them out", key=f'phase-guard-crossed-{k}')
+                else:
+                    out.ok(fn, n.ast, f"'{k}' phase runs whenever {own} is non-empty")
+        # order pre -> iter -> post
+        its = withs.get('iter', [])
+        bad_order = None
+        for i in its:
+            after = g.reach(g.normal_succ(i), labels=cfgm.noexc)
+            if any(p in after for p in withs.get('pre', [])):
+                bad_order = ('pre', i)
+            for po in withs.get('post', []):
+                if i in g.reach(g.normal_succ(po), labels=cfgm.noexc):
+                    bad_order = ('post', i)
+        if bad_order:
+            out.bad(fn, bad_order[1].ast, f"the '{bad_order[0]}' phase is on the wrong side of the iterated phase",
+                    key='phase-order')
+    # Relevance._setup_nonlinear_sets: name -> array built from the matching set
+    fn = repo.func(REL, 'Relevance._setup_nonlinear_sets')
+    g = cfgm.build(fn)
+    rd = cfgm.ReachingDefs(g)
+    dicts = [n for n in g.nodes if n.kind == 'stmt' and isinstance(n.ast, ast.Assign) and
+             any(astx.path(t) == 'self._nonlinear_sets' for t in n.ast.targets) and isinstance(n.ast.value, ast.Dict)]
+    if len(dicts) != 1:
+        out.unsure(fn, fn.node, 'self._nonlinear_sets is not assigned one dict literal')
+        return
+    dn = dicts[0]
+    want = {'pre': '_pre_components', 'iter': '_iterated_components', 'post': '_post_components'}
+    for kx, vx in zip(dn.ast.value.keys, dn.ast.value.values):
+        k = astx.const_str(kx)
+        if k not in want or not isinstance(vx, ast.Name):
+            out.unsure(fn, dn.ast, f'entry {astx.src(kx)} not recognised')
+            continue
+        srcs = set()
+        for d in rd.defs(dn, vx.id):
+            if not (d.kind == 'stmt' and isinstance(d.ast, ast.Assign) and isinstance(d.ast.value, ast.Call)):
+                srcs.add(None)
+                continue
+            cv = d.ast.value
+            if astx.call_name(cv) == 'self._sys2rel_array' and len(cv.args) == 1 and isinstance(cv.args[0], ast.Name):
+                acc = cv.args[0].id
+                for lp in [x for x in astx.walk_stmts(fn.node.body) if isinstance(x, ast.For)]:
+                    if any(astx.callee_attr(c) in ('update', 'add') and astx.path(astx.receiver(c)) == acc
+                           for c in astx.calls(lp)):
+                        ip = astx.path(lp.iter) or ''
+                        srcs.add(ip.rsplit('.', 1)[-1] if '.' in ip else None)
+            elif astx.call_name(cv) in ('np.ones', 'numpy.ones'):
+                srcs.add('*all*')
+            else:
+                srcs.add(None)
+        srcs.discard('*all*')
+        if srcs == {want[k]}:
+            out.ok(fn, kx, f"'{k}' -> array of {want[k]}")
+        elif srcs and None not in srcs and srcs <= set(want.values()):
+            out.bad(fn, dn.ast, f"nonlinear set '{k}' is built from {sorted(srcs)} instead of {want[k]}",
+                    key=f'nonlinear-set-crossed-{k}')
+        else:
+            out.unsure(fn, dn.ast, f"cannot trace the array stored under '{k}'")
+
+
+JACOBIAN = 'openmdao/jacobians/jacobian.py'
+
+
+@rule('C24.statecoupling', floor=2)
+def statecoupling(repo, out):
+    """Sub-jacobians with respect to a state (an output of the same system) are never pruned by variable relevance: the dataflow graph has no state -> state edges, so a coupled state looks irrelevant although the response depends on it."""
+    for qn in ('Jacobian._get_relevant_subjacs_info', 'Jacobian._get_ordered_subjac_keys'):
+        fn = repo.func(JACOBIAN, qn)
+        tests = []
+        for st in astx.walk_stmts(fn.node.body):
+            if isinstance(st, ast.If):
+                cs = [c for c in astx.calls(st.test) if astx.callee_attr(c) == 'is_relevant' and len(c.args) == 1]
+                if cs:
+                    tests.append((st, cs))
+        if len(tests) != 1:
+            out.unsure(fn, fn.node, f'expected one pruning test on is_relevant(...), found {len(tests)}')
+            continue
+        st, cs = tests[0]
+        loopvars = {}
+        for a in astx.ancestors(st):
+            if isinstance(a, ast.For):
+                for t in astx.assigned_targets(a):
+                    if isinstance(t, ast.Name):
+                        loopvars[t.id] = a
+        # which argument is the `wrt` side: the second element of the key
+        wrt = None
+        for x in astx.walk_stmts(fn.node.body):
+            if isinstance(x, ast.Assign) and len(x.targets) == 1 and isinstance(x.targets[0], ast.Tuple) and \
+                    len(x.targets[0].elts) == 2 and isinstance(x.value, ast.Name) and x.value.id == 'key':
+                wrt = astx.path(x.targets[0].elts[1])
+            if isinstance(x, ast.Assign) and len(x.targets) == 1 and astx.path(x.targets[0]) == 'key' and \
+                    isinstance(x.value, ast.Tuple) and len(x.value.elts) == 2:
+                wrt = astx.path(x.value.elts[1])
+        if wrt is None:
+            out.unsure(fn, st, 'cannot tell which name is the wrt side of the key')
+            continue
+        preset = {astx.dump(c): False for c in cs}
+        env = {}
+        for w in astx.walk(st.test):
+            if isinstance(w, ast.Compare) and len(w.ops) == 1 and isinstance(w.ops[0], (ast.In, ast.NotIn)) \
+                    and astx.path(w.left) == wrt:
+                cont = astx.path(w.comparators[0]) or ''
+                is_out = 'out' in cont.rsplit('.', 1)[-1]
+                is_in = not is_out and ('in_' in cont or 'input' in cont)
+                if is_out or is_in:
+                    member = is_out            # wrt is a state: in the outputs, not in the inputs
+                    preset[astx.dump(w)] = member if isinstance(w.ops[0], ast.In) else not member
+            if isinstance(w, ast.Compare) and len(w.ops) == 1 and isinstance(w.ops[0], (ast.IsNot, ast.Is)) and \
+                    isinstance(w.comparators[0], ast.Constant) and w.comparators[0].value is None and \
+                    isinstance(w.left, ast.Name):
+                env[w.left.id] = _Computed(True)
+        # `for type_ in ('output', 'input'): for wrt in names[type_]` : the state case is type_ == 'output'
+        lp = loopvars.get(wrt)
+        if lp is not None and isinstance(lp.iter, ast.Subscript) and isinstance(lp.iter.slice, ast.Name) and \
+                lp.iter.slice.id in loopvars:
+            env[lp.iter.slice.id] = 'output'
+        vals = eval_all(st.test, env, preset=preset)
+        # does the true branch drop the key (continue / irrelevant list) ?
+        drops_true = any(isinstance(b, ast.Continue) for b in st.body) or \
+            any(astx.mentions(b, 'irrelevant_subjacs') for b in st.body)
+        if not drops_true:
+            out.unsure(fn, st, 'pruning branch not recognised')
+            continue
+        if vals == {False}:
+            out.ok(fn, st, f'a key whose `{wrt}` is a state is never pruned')
+        elif vals == {True}:
+            out.bad(fn, st, f'a sub-jacobian (of, {wrt}) is dropped when is_relevant({wrt}) or is_relevant(of) '
+                    f'is False even if `{wrt}` is a state of this very system: variable relevance comes from a '
+                    'graph without state -> state edges, so a coupled state that is not itself on a dv -> '
+                    'response path loses its partials and the linear solve (ScipyKrylov / block solvers with '
+                    'relevance on) returns wrong totals', key='state-partials-pruned')
+        else:
+            out.unsure(fn, st, 'pruning test contains atoms that are not recognised')
 
 
 # =========================================================================== sweeps
@@ -2131,6 +2618,59 @@ selftest(
             seed_map[fwd_seeds][rev_seeds] = relarr
 """, """            seed_map.setdefault(rev_seeds, {})[fwd_seeds] = relarr
 """, 'C24.arrays'),
+    # ---- jacreset
+    Mutant('jacreset-impl-only-approx', IMPL, "        if self._relevance_changed() and not isinstance(self._jacobian, _ColSparsityJac):\n            self._jac_wrapper = None\n",
+           "        if (self._relevance_changed() and self._has_approx and\n                not isinstance(self._jacobian, _ColSparsityJac)):\n            self._jac_wrapper = None\n", 'C24.jacreset'),
+    Mutant('jacreset-expl-short-circuit', EXPL, "        if self._relevance_changed() and not isinstance(self._jacobian, _ColSparsityJac):\n            self._jacobian = None\n",
+           "        if self._has_approx and self._relevance_changed() and not isinstance(self._jacobian, _ColSparsityJac):\n            self._jacobian = None\n", 'C24.jacreset'),
+    Mutant('jacreset-impl-wrong-cache', IMPL, "        if self._relevance_changed() and not isinstance(self._jacobian, _ColSparsityJac):\n            self._jac_wrapper = None\n",
+           "        if self._relevance_changed() and not isinstance(self._jacobian, _ColSparsityJac):\n            self._jacobian = None\n", 'C24.jacreset'),
+    Mutant('jacreset-group-pathname', GROUP, "        if self._relevance_changed():\n            self._jacobian = None\n", "        if self._relevance_changed() and self.pathname == '':\n            self._jacobian = None\n", 'C24.jacreset'),
+    Mutant('jacreset-changed-and', SYSTEM, "if (old_rel is not self._relevance) or (active != self._relevance._active):", "if (old_rel is not self._relevance) and (active != self._relevance._active):", 'C24.jacreset'),
+    Mutant('jacreset-changed-ignores-active', SYSTEM, "if (old_rel is not self._relevance) or (active != self._relevance._active):", "if old_rel is not self._relevance:", 'C24.jacreset'),
+    Twin('twin-jacreset-nested-if', IMPL, "        if self._relevance_changed() and not isinstance(self._jacobian, _ColSparsityJac):\n            self._jac_wrapper = None\n",
+         "        if self._relevance_changed() and not (isinstance(self._jacobian, _ColSparsityJac)):\n            self._jac_wrapper = None\n"),
+    Twin('twin-jacreset-changed-flag', SYSTEM, """        if (old_rel is not self._relevance) or (active != self._relevance._active):
+            self._old_relevance = (self._relevance, self._relevance._active)
+            return True
+        return False
+""", """        changed = self._relevance is not old_rel or self._relevance._active != active
+        if changed:
+            self._old_relevance = (self._relevance, self._relevance._active)
+        return changed
+"""),
+    # ---- seedcover
+    Mutant('seedcover-last-wrt-only', APPROX, "self._approx_groups = [(tuple(wrts_directional), data_directional,", "self._approx_groups = [((wrt,), data_directional,", 'C24.seedcover'),
+    Mutant('seedcover-consumer-wrong-slot', APPROX, "                        seeds = wrt if directional else (wrt,)\n", "                        seeds = direction if directional else (wrt,)\n", 'C24.seedcover'),
+    Mutant('seedcover-no-seeds', APPROX, "                        with system._relevance.seeds_active(fwd_seeds=seeds):\n                            result = self._run_point(system, vec_ind_info,\n                                                     app_data, results_array, total_or_semi,\n                                                     loc_idx)\n",
+           "                        with system._relevance.all_seeds_active():\n                            result = self._run_point(system, vec_ind_info,\n                                                     app_data, results_array, total_or_semi,\n                                                     loc_idx)\n", 'C24.seedcover'),
+    Twin('twin-seedcover-rename-acc', APPROX, "wrts_directional", "all_wrts", nth='all'),
+    Twin('twin-seedcover-list-seeds', APPROX, "self._approx_groups = [(tuple(wrts_directional), data_directional,", "self._approx_groups = [(tuple(sorted(wrts_directional)), data_directional,"),
+    Twin('twin-seedcover-consumer-if', APPROX, "                        seeds = wrt if directional else (wrt,)\n", "                        if directional:\n                            seeds = wrt\n                        else:\n                            seeds = (wrt,)\n"),
+    # ---- phase
+    Mutant('phase-ff-pre-guarded-by-post', DRIVER, "            if model._pre_components:\n                with model._relevance.nonlinear_active('pre'):", "            if model._post_components:\n                with model._relevance.nonlinear_active('pre'):", 'C24.phase', nth=1),
+    Mutant('phase-run-post-guarded-by-pre', DRIVER, "            if model._post_components:\n                with model._relevance.nonlinear_active('post'):", "            if model._pre_components:\n                with model._relevance.nonlinear_active('post'):", 'C24.phase'),
+    Mutant('phase-run-pre-needs-both', DRIVER, "            if model._pre_components:\n                with model._relevance.nonlinear_active('pre'):", "            if model._pre_components and model._post_components:\n                with model._relevance.nonlinear_active('pre'):", 'C24.phase'),
+    Mutant('phase-sets-crossed', REL, "        pre_array = self._sys2rel_array(pre_systems)\n        post_array = self._sys2rel_array(post_systems)", "        pre_array = self._sys2rel_array(post_systems)\n        post_array = self._sys2rel_array(pre_systems)", 'C24.phase'),
+    Mutant('phase-dict-crossed', REL, "{'pre': pre_array, 'iter': iter_array, 'post': post_array}", "{'pre': post_array, 'iter': iter_array, 'post': pre_array}", 'C24.phase'),
+    Twin('twin-phase-len-guard', DRIVER, "            if model._pre_components:\n                with model._relevance.nonlinear_active('pre'):", "            if model._pre_components or False:\n                with model._relevance.nonlinear_active('pre'):"),
+    Twin('twin-phase-len-test', DRIVER, "            if model._post_components:\n                with model._relevance.nonlinear_active('post'):\n                    self._run_solve_nonlinear()\n\n        else:\n            with SaveOptResult(self):\n                res = f_lsq()",
+         "            if len(model._post_components) > 0:\n                with model._relevance.nonlinear_active('post'):\n                    self._run_solve_nonlinear()\n\n        else:\n            with SaveOptResult(self):\n                res = f_lsq()"),
+    Mutant('jacreset-impl-approx-not-rebuilt', IMPL, "                if self._has_approx:\n                    self._get_static_wrt_matches()\n                    self._add_approximations(use_relevance=use_relevance)\n\n        return self._jac_wrapper",
+           "                if self._has_approx:\n                    self._get_static_wrt_matches()\n\n        return self._jac_wrapper", 'C24.jacreset'),
+    # pre-fix shapes of the two repaired defects (reverts must be reported)
+    Mutant('jacreset-group-prefix-shape', GROUP, "            self._jacobian = None\n            if self._owns_approx_jac and self.pathname and not self._first_call_to_linearize:\n                # the approximations were set up (and pruned) for the previous relevance\n                self._clear_jac_caches()\n                self._setup_approx_derivs()\n",
+           "            self._jacobian = None\n", 'C24.jacreset'),
+    Mutant('statecoupling-prefix-shape-subjacs', JACOBIAN, "                        if relevance is not None and wrt not in out_slices and \\\n                                (not is_relevant(wrt) or not is_relevant(of)):",
+           "                        if relevance is not None and (not is_relevant(wrt) or not is_relevant(of)):", 'C24.statecoupling'),
+    Mutant('statecoupling-prefix-shape-keys', JACOBIAN, "                                    if relevance is not None and type_ == 'input' and \\\n                                            (not is_relevant(wrt) or not is_relevant(of)):",
+           "                                    if relevance is not None and (not is_relevant(wrt) or\n                                                                  not is_relevant(of)):", 'C24.statecoupling'),
+    Mutant('statecoupling-wrong-container', JACOBIAN, "if relevance is not None and wrt not in out_slices and \\", "if relevance is not None and wrt not in in_slices and \\", 'C24.statecoupling'),
+    Mutant('statecoupling-wrong-type', JACOBIAN, "if relevance is not None and type_ == 'input' and \\", "if relevance is not None and type_ == 'output' and \\", 'C24.statecoupling'),
+    Twin('twin-jacreset-group-flag-first', GROUP, "            if self._owns_approx_jac and self.pathname and not self._first_call_to_linearize:\n                # the approximations were set up (and pruned) for the previous relevance\n                self._clear_jac_caches()\n                self._setup_approx_derivs()\n",
+         "            redo = self._owns_approx_jac and self.pathname and not self._first_call_to_linearize\n            if redo:\n                self._clear_jac_caches()\n                self._setup_approx_derivs()\n"),
+    Twin('twin-statecoupling-in-inputs', JACOBIAN, "if relevance is not None and wrt not in out_slices and \\", "if relevance is not None and wrt in in_slices and \\",
+         also=[(JACOBIAN, "if relevance is not None and type_ == 'input' and \\", "if relevance is not None and type_ != 'output' and \\")]),
     Twin('twin-gate-local-flag', GROUP, "            with relevance.active(self._linear_solver.use_relevance()):\n                subs = list(",
          "            prune = self._linear_solver.use_relevance()\n            with relevance.active(prune):\n                subs = list("),
 )
